@@ -136,8 +136,20 @@ func (r *run) lifeBPMs(names []string) map[int]map[string]*bpmMat {
 			}
 		}
 	}
+	// a BPM whose key element holds an ECC key (the tool generates them; no signature
+	// can be checked for it, the binding functions do not look at the signature)
+	for n, k := range r.ecc {
+		if b, _, err := buildCbntBPM(rg, 1, 1, false, false, false, false); err == nil {
+			if b.VData.CBNTbpm.PMSE.KeySignature.Key.SetPubKey(&k.PublicKey) == nil {
+				res[2][n] = &bpmMat{obj: b}
+			}
+		}
+	}
 	return res
 }
+
+// isECC: names of the ECC keys
+func (r *run) isECC(name string) bool { _, ok := r.ecc[name]; return ok }
 
 // struct-level binding of the KM object against the BPM signed by key y
 func (l *life) bindStruct(mats map[string]*bpmMat, y string, tag string) {
@@ -155,7 +167,13 @@ func (l *life) bindStruct(mats map[string]*bpmMat, y string, tag string) {
 	if err != nil {
 		return
 	}
-	l.bind(both, y, tag, map[string]interface{}{"km_state": kmStateLit(l.b), "bpm_key_data_hex": hexs(keyDataOf(pubOf(l.r.keys[y])))})
+	var kdHex string
+	if l.gen == 1 {
+		kdHex = hexs(m.obj.VData.BGbpm.PMSE.KeySignature.Key.Data)
+	} else {
+		kdHex = hexs(m.obj.VData.CBNTbpm.PMSE.KeySignature.Key.Data)
+	}
+	l.bind(both, y, tag, map[string]interface{}{"km_state": kmStateLit(l.b), "bpm_key_data_hex": kdHex})
 }
 
 func (l *life) bind(both *bootguard.BootGuard, y, tag string, extra map[string]interface{}) {
@@ -168,6 +186,12 @@ func (l *life) bind(both *bootguard.BootGuard, y, tag string, extra map[string]i
 			exp = &tr
 		}
 		refused = l.gen == 1 && strings.EqualFold(l.last.alg, "SHA1")
+		// ECC keys can be generated and placed, but the suite binds RSA keys only: the
+		// check has to fail closed, for the placed key and for every other key
+		// (characterised by C18_binding_non_rsa_fails_closed)
+		if l.r.isECC(l.last.key) || l.r.isECC(y) {
+			refused = true
+		}
 	}
 	d := l.input(map[string]interface{}{"check": tag, "bpm_signed_by": y})
 	if l.last != nil {
@@ -187,10 +211,22 @@ func (l *life) place(keyName, algName string, badKey bool, mats map[string]*bpmM
 	c := l.r.c
 	var pub crypto.PublicKey
 	var kd []byte
-	if badKey {
+	ecc := l.r.isECC(keyName)
+	switch {
+	case badKey:
 		p, _, _ := ed25519.GenerateKey(zeroReader{})
 		pub = p
-	} else {
+	case ecc:
+		// key data as fiano's key element stores the key (third party, called directly);
+		// a curve it cannot hold (P-224) is a key the manifests cannot hold
+		pub = &l.r.ecc[keyName].PublicKey
+		var ke cbnt.Key
+		if ke.SetPubKey(pub) == nil {
+			kd = ke.Data
+		} else {
+			badKey = true
+		}
+	default:
 		pk := pubOf(l.r.keys[keyName])
 		pub = pk
 		kd = keyDataOf(pk)
@@ -211,13 +247,20 @@ func (l *life) place(keyName, algName string, badKey bool, mats map[string]*bpmM
 	case err != nil:
 		out = oErr
 	}
-	what := fmt.Sprintf("GetBPMPubHash(key %s, %q) -> %s", map[bool]string{false: keyName, true: "ed25519"}[badKey], algName, []string{"ok", "error", "panic " + pmsg}[out])
+	shown := keyName
+	if shown == "" {
+		shown = "ed25519"
+	}
+	what := fmt.Sprintf("GetBPMPubHash(key %s, %q) -> %s", shown, algName, []string{"ok", "error", "panic " + pmsg}[out])
 	l.history = append(l.history, what)
 	l.steps = append(l.steps, fmt.Sprintf("(SPlace %s %s %s, %s, %s)", gal.Bool(!badKey), req, bz(kd), obsUnit(out), after))
-	if !badKey && known {
+	if !badKey && known && len(kd) >= 4 {
 		if d, ok := stdHash(alg, kd[4:]); ok {
 			l.ht = append(l.ht, hashEntry{alg, kd[4:], d})
 		}
+	}
+	if out == oPanic {
+		c.OracleFail(-1, "GetBPMPubHash panics instead of returning an error: "+pmsg, "bootguard.GetBPMPubHash", l.input(map[string]interface{}{"key_data_hex": hexs(kd), "hash_name": algName}))
 	}
 	if out != oOk {
 		// nothing was placed: the object must be what it was
@@ -237,7 +280,19 @@ func (l *life) place(keyName, algName string, badKey bool, mats map[string]*bpmM
 	}
 	l.last = &placed{keyName, algName}
 	l.hasSig = false // whatever signature the object carries is over the old content
-	// the digest placed is H(alg, modulus) of THIS key
+	if ecc {
+		// what "the hash of an ECC key" is the property does not say; the state is tied to
+		// the model by the CKmLife case, the binding below has to fail closed
+		l.r.c.Count("life/ecc-key-placed")
+		l.bindStruct(mats, keyName, "structures after GetBPMPubHash (ECC key)")
+		for n := range mats {
+			if !l.r.isECC(n) && (n == "B" || n == "E") {
+				l.bindStruct(mats, n, "structures after GetBPMPubHash (ECC key)")
+			}
+		}
+		return
+	}
+	// the digest placed is H(alg, modulus) of THIS key, all of it, whatever its size
 	want, _ := stdHash(alg, kd[4:])
 	found := false
 	if l.gen == 1 {
@@ -251,7 +306,7 @@ func (l *life) place(keyName, algName string, badKey bool, mats map[string]*bpmM
 		}
 	}
 	if !found {
-		c.OracleFail(-1, "GetBPMPubHash does not store H(alg, modulus) of the given key as the BPM-signing digest", "bootguard.GetBPMPubHash", l.input(map[string]interface{}{"state_after": after}))
+		c.OracleFail(-1, fmt.Sprintf("GetBPMPubHash on an RSA-%d key does not store H(%s, modulus) of the given key as the BPM-signing digest", (len(kd)-4)*8, algName), "bootguard.GetBPMPubHash", l.input(map[string]interface{}{"state_after": after, "key_data_hex": hexs(kd), "key_bits": (len(kd) - 4) * 8, "hash_name": algName, "expected_digest_hex": hexs(want)}))
 	} else {
 		c.OracleOK()
 	}
@@ -262,7 +317,7 @@ func (l *life) place(keyName, algName string, badKey bool, mats map[string]*bpmM
 		other = l.prev.key
 	} else {
 		for n := range mats {
-			if n != keyName && (other == "" || n < other) {
+			if n != keyName && !l.r.isECC(n) && (other == "" || n < other) {
 				other = n
 			}
 		}
@@ -414,12 +469,8 @@ func (r *run) kmLife(gen, i int, names []string, mats map[string]*bpmMat, parsed
 		}
 		l.b = b
 		l.hasSig = true
-		if n, ok := sf.desc["hashes"].(int); !(ok && n == 0) {
-			bk := "B"
-			if sf.desc["key"] == "D" {
-				bk = "E"
-			}
-			l.last = &placed{bk, fmt.Sprint(sf.desc["bpmhash"])}
+		if bk, ok := sf.desc["bpmkey"]; ok {
+			l.last = &placed{fmt.Sprint(bk), fmt.Sprint(sf.desc["bpmhash"])}
 		}
 		kmKey = fmt.Sprint(sf.desc["key"])
 		if gen == 2 {
@@ -462,10 +513,14 @@ func (r *run) kmLife(gen, i int, names []string, mats map[string]*bpmMat, parsed
 		}
 		l.hasSig = true
 		l.verifyObject(0, "just signed", sf.verifies)
-		// the binding check through the files, as bg-suite does it
-		for _, y := range names {
+		// the binding check through the files, as bg-suite does it: the key in place, the
+		// one it replaced, one more of each size (thorough: every key)
+		for yi, y := range names {
 			m := mats[y]
 			if m == nil {
+				continue
+			}
+			if !c.Thorough() && !(l.last != nil && y == l.last.key) && !(l.prev != nil && y == l.prev.key) && yi != len(l.history)%len(names) && yi != (len(l.history)+3)%len(names) {
 				continue
 			}
 			both, err := bootguard.NewBPMAndKM(bytes.NewReader(m.file), bytes.NewReader(sf.file))
@@ -522,7 +577,7 @@ func (r *run) kmLife(gen, i int, names []string, mats map[string]*bpmMat, parsed
 		}
 	}
 	badPlace := func() {
-		switch rg.Intn(4) {
+		switch rg.Intn(7) {
 		case 0:
 			l.place(pick(), "FOO", false, mats)
 		case 1:
@@ -531,13 +586,25 @@ func (r *run) kmLife(gen, i int, names []string, mats map[string]*bpmMat, parsed
 			l.place(pick(), "RSA", false, mats) // a name the parser knows, not a hash
 		case 3:
 			l.place("", "SHA256", true, mats)
+		case 4:
+			// the null names: there is no "default" digest for a key hash, nothing may be placed
+			l.place(pick(), []string{"ALGNULL", "ALGUNKNOWN", "algnull"}[rg.Intn(3)], false, mats)
+		case 5:
+			l.place("Q", "SHA256", false, mats) // ECC P-224: a curve the key element cannot hold
+		case 6:
+			l.place(pick(), "", false, mats)
 		}
+	}
+	eccPlace := func() {
+		l.place([]string{"P", "P2"}[rg.Intn(2)], pickAlg(), false, mats)
 	}
 	// ---- the sequence: at least one call on the reused object, signings in between
 	n := 3 + rg.Intn(4)
 	placedOnce := false
 	for s := 0; s < n; s++ {
-		switch x := rg.Intn(20); {
+		switch x := rg.Intn(21); {
+		case x == 20:
+			eccPlace()
 		case x < 8:
 			placeNew()
 			placedOnce = true
@@ -592,12 +659,15 @@ func (r *run) bpmLife(gen, i int, names []string, kmFor map[string]*bootguard.Bo
 	l.b = b
 	l.history = append(l.history, "new BPM")
 	signer := ""
-	combos := [][2]string{{"RSASSA", "SHA256"}, {"RSAPSS", "SHA384"}}
+	// pairs that verify: the scheme's own digest, or the choice left to the scheme
+	combos := [][2]string{{"RSASSA", "SHA256"}, {"RSAPSS", "SHA384"}, {"RSAPSS", "ALGNULL"}, {"RSASSA", "AlgUnknown"}, {"rsapss", "algnull"}, {"RSASSA", "ALGNULL"}}
 	var lastFile []byte
 	sign := func(k string) {
 		cb := combos[0]
 		if gen == 2 {
-			cb = combos[rg.Intn(2)]
+			cb = combos[rg.Intn(len(combos))]
+		} else if rg.Intn(2) == 0 {
+			cb = [2]string{"RSASSA", []string{"ALGNULL", "ALGUNKNOWN", "SHA1"}[rg.Intn(3)]} // BG 1.0: there is no hash choice
 		}
 		d := shapeDesc{"gen": gen, "doc": "BPM", "life": l.name, "history": append([]string(nil), l.history...)}
 		sf := r.signOne(l.b, 1, cb[0], cb[1], k, d, false, fmt.Sprintf("%s-sign%d", l.name, len(l.history)))
@@ -683,10 +753,7 @@ func (r *run) bpmLife(gen, i int, names []string, kmFor map[string]*bootguard.Bo
 func (r *run) lifecycles() {
 	c := r.c
 	rg := c.Rng
-	names := []string{"A", "B", "C"}
-	if c.Thorough() {
-		names = append(names, "D", "E")
-	}
+	names := []string{"A", "B", "C", "D", "E"} // both key sizes, every tier
 	mats := r.lifeBPMs(names)
 	keep := len(r.signed)
 	var parsed [3][]*signedFile
